@@ -235,6 +235,18 @@ func (x *Exec) runFunc(st *State, fn *ssa.Function, args []Value, binds []Value,
 		more, out := x.runBlock(it)
 		work = append(work, more...)
 		outs = append(outs, out...)
+		if len(work) == 0 && depth == 0 && len(x.cutArr) > 0 {
+			// all paths before the cut points are done: merge the earliest cut
+			var first *ssa.Call
+			for c := range x.cutArr {
+				if first == nil || c.Pos() < first.Pos() {
+					first = c
+				}
+			}
+			arr := x.cutArr[first]
+			delete(x.cutArr, first)
+			work = append(work, x.mergeCut(first, x.cutSpec[first], arr))
+		}
 	}
 	return outs
 }
@@ -313,6 +325,12 @@ func (x *Exec) runBlock(it workItem) ([]workItem, []Outcome) {
 				unsupported("phi without matching predecessor")
 			}
 		case *ssa.Call:
+			if cs := x.cutFor(fr, ins); cs != nil {
+				// park the path at the cut point; runFunc merges the arrivals
+				x.cutArr[ins] = append(x.cutArr[ins], workItem{st, fr, b, i, it.prev})
+				x.cutSpec[ins] = cs
+				return nil, nil
+			}
 			outs := x.doCall(st, fr, ins.Common(), ins.Pos(), ins)
 			var more []workItem
 			var res []Outcome
@@ -414,6 +432,7 @@ func (x *Exec) step(st *State, fr *Frame, ins ssa.Instruction) {
 			return
 		}
 		c := x.newCell(ins.Comment, et)
+		c.site = ins
 		st.cells[c] = x.tc.zero(x, et)
 		v := Value{K: KPtr, T: ins.Type(), B: BCell, Cell: c}
 		fr.regs[ins] = v
